@@ -495,6 +495,8 @@ def run_case(r, sc, stats, local_ips):
         classes.append("env_strings")
     if sc.get("db"):
         classes.append("databytes_set")
+    if sc.get("sysfault"):
+        classes.append("queue_pipe_write_fails")
     stats.slack += 1 if info.get("slack") else 0
     ntxn = sum(1 for c in sc["cmds"] if c["t"] == "data") if daemon == "smtpd" else len(sc["msgs"])
     happy = (info.get("acks", 0) == ntxn and sc.get("cut") is None and not info.get("rcpt_no") and not info.get("rcptD")
@@ -686,6 +688,10 @@ def g_smtp_scenario(t):
         sc["fault"] = f
     if t.flag(1, 3):
         sc["cut"] = t.n(len(M.smtp_stream(sc["cmds"])) + 1)
+    if not f and t.flag(1, 10):
+        # one write to the pipes that feed the queue program fails (message or envelope): the submission it hits is refused temporarily
+        # and nothing of it is queued; what is acknowledged is still exactly what was queued
+        sc["sysfault"] = {"cls": "pwrite", "k": t.n(10), "errno": t.pick([12, 5, 28, 32])}
     return sc
 
 
@@ -821,6 +827,12 @@ def systematic(tier):
                 out.append(smtp(cmds=base_smtp(ntx=2), fault=f, qq={"mode": "real"}))
                 out.append(dict(base_qm("qmtpd", nm=2), fault=f))
                 out.append(dict(base_qm("qmqpd"), fault=f))
+    # (a3) every write to the queue program's pipes failing once (two transactions with bodies of several pipe buffers)
+    big = {"recv": 1, "deliv": 0, "case": 5, "other": 1, "sep": True, "brecv": 0, "pat": J(b"line of text\n"), "len": 2900, "nl": True}
+    for k in range(10):
+        for en in (12, 28):
+            for q in ({"mode": "qq", "exit": 0}, {"mode": "real"}):
+                out.append(smtp(cmds=base_smtp(ntx=2, body=big), sysfault={"cls": "pwrite", "k": k, "errno": en}, qq=q))
     # (b) databytes grid: -1/0/+1 x via x encodings
     bodies = [{"recv": 0, "deliv": 0, "case": 0, "other": 0, "sep": True, "brecv": 0, "pat": J(p), "len": n, "nl": nl}
               for p in (b"x", b"a\rb\n", b"..\n", b"\r\n") for n in (0, 1, 40, 1030) for nl in (True, False)]
